@@ -35,6 +35,7 @@
 // @common
     use crate::verif_ref::{self as vr, REntry};
     use std::io::Cursor;
+    use crate::verif_io::FixR;
 
     /// N symbolic entries in a fixed drawing order
     fn any_entries<const N: usize>() -> [REntry; N] {
@@ -380,4 +381,31 @@
         kani::cover!(part.is_ok() && e[1].tile_id == u64::MAX && e[1].run_length == 2 && ks == 0);
         kani::cover!(part.is_ok() && e[0].tile_id == u64::MAX - 1 && e[0].run_length == 2 && ks == 0 && a == 5);
         std::mem::forget(part);
+    }
+
+// @h id=H15.r-k$k prop=C15 rep="k:0-7" quick="0-7" cap=600 mem=16 unwind=11 uw="read_dir_rec=3;FixR=30" stubs="Directory::from_reader -> fixed-shape reference parser (1 entry)" bounds="legal chain root -> leaf -> leaf -> tile entry over a stream that fails from operation index k = $k on (the fault-free walk has 6 stream operations: every fail-stop point 0..6 and one beyond is an instance)"
+    /// a directory walk over a stream that starts failing returns an error - never a partial result reported as success
+    #[kani::proof]
+    #[kani::stub(crate::directory::Directory::from_reader, stub_from_reader1)]
+    fn h15_r_walk_faults_k$k() {
+        let k: u32 = $k;
+        let ptr = |off: u64| [REntry { tile_id: 0, offset: off, length: L1 as u32, run_length: 0 }];
+        let tile = [REntry { tile_id: 9, offset: 0, length: 3, run_length: 1 }];
+        let mut img = [0u8; 3 * L1];
+        put1(&mut img, 0, &ptr(L1 as u64));
+        put1(&mut img, L1, &ptr(2 * L1 as u64));
+        put1(&mut img, 2 * L1, &tile);
+        let mut rd = FixR::new(&img, (3 * L1) as u64);
+        rd.fail_from = k;
+        let r = read_directories(&mut rd, Compression::None, (0, L1 as u64), 0, ..);
+        match &r {
+            Ok(m) => {
+                assert!(!rd.failed);
+                assert!(m.len() == 1);
+            }
+            Err(_) => assert!(rd.failed),
+        }
+        kani::cover!(r.is_ok() == (k >= 6));
+        kani::cover!(rd.ops >= 1);
+        std::mem::forget(r);
     }
